@@ -157,6 +157,7 @@ _add("C11",
 _add("C12",
      note="grid_intersect samples include destinations overhanging the source by whole tiles on the left / top")
 _add("C09",
+     replace_text=[(">= 2 remaining pixels per axis", ">= 1 remaining pixel per axis")],
      note="data_resolution_and_offset (label arithmetic, incl. the fallback resolution used only for single-element axes) is verified as a root of this property too")
 
 NA = {}
